@@ -308,8 +308,34 @@ theorem fmod_left_type_regression :
     C++ scope chain, at its first assignment in it. -/
 theorem stmt_decl (params : List Var) (b : Block) : annotate params b = annotV [params] b := annotate_eq params b
 
+/-- **The translated statement templates are the C++ statement forms `cExec` reads.** Every line `emitLines` produces is an instance
+    of one of these templates (translated from data/cpp/template/{assign,statement,flow}/… on every run) with `emitRaw e` / the
+    variable name in its holes. Read as C++ (`readForm`): the declare template is a declaration `T v = e;` with the receiver left
+    and the value right of `=`, the assign and aug-assign templates are (compound) assignment statements, `return e;`, the if /
+    else-if / else heads open (and, for the latter two, first close) a compound statement around the condition hole, the while head is
+    `while (c) {`, the for head declares `symbol` with `auto` from `begin`, tests `symbol < size` and increments the SAME
+    `symbol` by `step`, `break;`, `continue;`, and every closing line is `}` — the form `cStmt` / `cFor` / `cArms` give the
+    corresponding `AStmt` constructor, operand for operand. (A template that turns into another statement form — `while` into `if`,
+    `continue;` into `break;`, swapped for-sections — fails here.) -/
+theorem stmt_forms :
+    readForm stmtDeclare = some (.declare sVarType sReceiver sValue) ∧
+    readForm stmtAssign = some (.assign sReceiver sValue) ∧
+    readForm stmtAug = some (.compound sReceiver sOperator sValue) ∧
+    readForm stmtReturn = some (.ret sReturnValue) ∧
+    readForm stmtIfHead = some (.ifHead sCondition) ∧
+    readForm stmtElifHead = some (.elifHead sCondition) ∧
+    readForm stmtElseHead = some .elseHead ∧
+    readForm stmtWhileHead = some (.whileHead sCondition) ∧
+    readForm stmtForRangeHead = some (.forHead sSymbol sBegin sSymbol sSize sSymbol sStep) ∧
+    readForm stmtBreak = some .brk ∧
+    readForm stmtContinue = some .cont ∧
+    stmtIfTail = ['}'] ∧ stmtWhileTail = ['}'] ∧ stmtForRangeTail = ['}'] := by decide
+
+/-- the reader is not a constant: a `while` head is no `if` head, `continue;` is no `break;` -/
+example : readForm stmtWhileHead ≠ readForm stmtIfHead ∧ readForm stmtContinue ≠ readForm stmtBreak ∧ readForm [.tok ['}']] = none := by decide
+
 /-- **Statements agree.** For every function body of the core (`v = e`, `v op= e`, `return e`, `if/elif/else`, `while`,
-    `for v in range(begin, stop, step)`; expressions of the operator core on 32-bit ints and bools) that satisfies the static
+    `for v in range(begin, stop, step)`, `break`, `continue`; expressions of the operator core on 32-bit ints and bools) that satisfies the static
     condition `scopeOK` —
     * every name read — and every target of an augmented assignment — is *visible* in the C++ block structure (a parameter, or first assigned earlier in the same or an enclosing
       block: Python's function-level scoping is never needed beyond C++'s block scoping),
@@ -320,7 +346,9 @@ theorem stmt_decl (params : List Var) (b : Block) : annotate params b = annotV [
     and every terminating Python execution (range evaluated once, loop variable rebound on each iteration) that stays InSubset and
     returns `r`: the C++ reading of the emitted statements (declaration at the first assignment per `VarsCollector`, plain assignment
     afterwards, `{ … }` and `for (…)` opening and closing scopes, emitted expression text parsed by the C++ grammar) returns `r` with
-    the same fuel. Each clause of the condition is necessary: `stmt_scope_counterexample`, `range_reevaluated_counterexample`,
+    the same fuel. `break` / `continue` leave the blocks up to the innermost enclosing loop — in C++ every block left that way ends the
+    lifetime of its names (`popOut`), `continue` in the emitted `for` goes to the increment `v += step`, in Python to the next value
+    of the range; no extra condition is needed for them. Each clause of the condition is necessary: `stmt_scope_counterexample`, `range_reevaluated_counterexample`,
     `range_loopvar_counterexamples`. -/
 theorem stmt_agree (lits : Lits) (params : List Var) (args : Store) (b : Block) (fuel : Nat) (r : Int)
     (hargs : ∀ v, params.contains v = (args.get v).isSome)
@@ -337,8 +365,8 @@ theorem stmt_agree (lits : Lits) (params : List Var) (args : Store) (b : Block) 
   obtain ⟨out', hc, hr⟩ := (sim lits fuel).1 [params] args [args] b _ hscope hi hpy
   rw [stmt_decl, hc]
   cases out' with
-  | normal _ => cases hr
   | returned r' => cases hr; rfl
+  | _ => cases hr
 
 /-- `def f(a): s = 0; i = 0; while i < a: t = i * i; s = s + t; i = i + 1;  if s > 9: return s  else: return -s`
     (atoms: a=1 s=2 i=3 t=4, literals 0=10 1=11 9=12) -/
@@ -427,6 +455,40 @@ example :
     cExec wForLits 30 [[(1, 3)]] (annotate [1] wAug) = .ok (.returned 16) := by
   refine ⟨by decide, ?_⟩
   exact stmt_agree wForLits [1] [(1, 3)] wAug 30 16 (by intro v; by_cases h : v = 1 <;> simp [Store.get, h, eq_comm]) (by decide) (by decide)
+
+/-- `def f(a): s = 0; k = 0; while k < 9: k += 1; (if k == 2: t = k; continue); (if k > a: break); s += k;   for i in range(0, a, 1): (if i == 1: continue); (if i == 3: u = s; s = u + 100; break); s += i;   return s`
+    (atoms a=1 s=2 k=3 t=4 i=5 u=6, literals 0=10 1=11 2=12 3=13 9=14 100=15) -/
+def wJump : Block :=
+  let one (c : Node) (b : Block) : Stmt := .ifs (.one c b) false .nil
+  .cons (.assign 2 ['s'] (wAt 10 '0')) (.cons (.assign 3 ['k'] (wAt 10 '0'))
+  (.cons (.while_ (wBin .lt (wAt 3 'k') (wAt 14 '9'))
+      (.cons (.aug 3 ['k'] .add (wAt 11 '1'))
+      (.cons (one (wBin .eq (wAt 3 'k') (wAt 12 '2')) (.cons (.assign 4 ['t'] (wAt 3 'k')) (.cons .cont .nil)))
+      (.cons (one (wBin .gt (wAt 3 'k') (wAt 1 'a')) (.cons .brk .nil))
+      (.cons (.aug 2 ['s'] .add (wAt 3 'k')) .nil)))))
+  (.cons (.forRange 5 ['i'] (wAt 10 '0') (wAt 1 'a') (wAt 11 '1')
+      (.cons (one (wBin .eq (wAt 5 'i') (wAt 11 '1')) (.cons .cont .nil))
+      (.cons (one (wBin .eq (wAt 5 'i') (wAt 13 '3')) (.cons (.assign 6 ['u'] (wAt 2 's')) (.cons (.assign 2 ['s'] (wBin .add (wAt 6 'u') (.atom 15 ['1', '0', '0']))) (.cons .brk .nil))))
+      (.cons (.aug 2 ['s'] .add (wAt 5 'i')) .nil))))
+  (.cons (.ret (wAt 2 's')) .nil))))
+
+def wJumpLits : Lits := fun i =>
+  if i = 10 then some (.int 0) else if i = 11 then some (.int 1) else if i = 12 then some (.int 2) else if i = 13 then some (.int 3)
+  else if i = 14 then some (.int 9) else if i = 15 then some (.int 100) else none
+
+/-- non-vacuity of `stmt_agree` with `break` / `continue` (statement/break.j2, statement/continue.j2) in a `while` and in a `for`,
+    each leaving a block that has declared a name of its own: for a = 5 the while loop adds 1+3+4+5 (2 skipped, left at k = 6), the
+    for loop adds 0+2 (1 skipped) and leaves at i = 3 with +100: 115 on both sides -/
+example :
+    scopeOK wJumpLits [[1]] wJump = true ∧
+    (emitLines (fun _ => ['i', 'n', 't']) (annotate [1] wJump)).map String.ofList =
+      ["int s = 0;", "int k = 0;", "while (k < 9) {", "k += 1;", "if (k == 2) {", "int t = k;", "continue;", "}", "if (k > a) {", "break;", "}", "s += k;", "}",
+       "for (auto i = 0; i < a; i += 1) {", "if (i == 1) {", "continue;", "}", "if (i == 3) {", "int u = s;", "s = u + 100;", "break;", "}", "s += i;", "}",
+       "return s;"] ∧
+    pyExec wJumpLits 60 [(1, 5)] wJump = .ok (.returned 115) ∧
+    cExec wJumpLits 60 [[(1, 5)]] (annotate [1] wJump) = .ok (.returned 115) := by
+  refine ⟨by decide, by decide, by decide, ?_⟩
+  exact stmt_agree wJumpLits [1] [(1, 5)] wJump 60 115 (by intro v; by_cases h : v = 1 <;> simp [Store.get, h, eq_comm]) (by decide) (by decide)
 
 /-- `def f(n): t = 0;  for i in range(0, n, 1):  (if n < 5: n = n + 1);  t = t + 1;   return t` -/
 def wReeval : Block :=
